@@ -1044,8 +1044,19 @@ def base_archive(name: str):
     return STATE.get("zoo_pdx", {}).get(name)
 
 
-def check_aux(db, pdx, stage: str, entry: str) -> Optional[Dict[str, Any]]:
-    got, want = aux_snapshot(db), archive_aux(pdx)
+def base_aux_truth(name: str) -> Optional[Dict[str, str]]:
+    """The auxiliary files a base database has BY CONSTRUCTION: those of the shipped archive, none for the
+    databases built through the API (their archives are written by the tree under test and are not a truth)."""
+    if name.startswith("zoo"):
+        return {}
+    arch = base_archive(name)
+    return archive_aux(arch) if arch is not None else None
+
+
+def check_aux(db, pdx, stage: str, entry: str, want: Optional[Dict[str, str]] = None) -> Optional[Dict[str, Any]]:
+    got = aux_snapshot(db)
+    if want is None:
+        want = archive_aux(pdx)
     if got != want:
         extra = sorted(set(got) - set(want))
         missing = sorted(set(want) - set(got))
@@ -1154,9 +1165,9 @@ def execute(trace: Dict[str, Any]) -> Dict[str, Any]:
                     faults["other_database_written_before"] = 1
                 except Exception as e:  # noqa: BLE001 - judged by the runs that use it as base
                     log.ev("sim", "prelude-failed", exc_sig(e))
-            if db0 is not None and base_archive(trace["base"]) is not None:
+            if db0 is not None and base_aux_truth(trace["base"]) is not None:
                 # the auxiliary files of db0 are those of its archive, whatever else this process loaded or wrote
-                v6 = check_aux(db0, base_archive(trace["base"]), "base load", "add_pdx_file")
+                v6 = check_aux(db0, None, "base load", "add_pdx_file", want=base_aux_truth(trace["base"]))
                 if v6:
                     violations.append(v6)
             old = new = None
@@ -1272,9 +1283,9 @@ def execute(trace: Dict[str, Any]) -> Dict[str, Any]:
                                                       "written_after_use": a[max(0, pos - 60):pos + 60].decode("utf-8", "replace"),
                                                       "written_unused": b_[max(0, pos - 60):pos + 60].decode("utf-8", "replace"),
                                                       "pert": pert}})
-                if outcome == "ok" and base_archive(trace["base"]) is not None:
+                if outcome == "ok" and base_aux_truth(trace["base"]) is not None:
                     # the auxiliary files of the written archive are those of the archive the database came from
-                    want, got = archive_aux(base_archive(trace["base"])), archive_aux(p1)
+                    want, got = base_aux_truth(trace["base"]), archive_aux(p1)
                     if want != got:
                         missing = sorted(set(want) - set(got))
                         changed = sorted(k for k in set(got) & set(want) if got[k] != want[k])
